@@ -121,7 +121,18 @@ impl Hist {
     pub fn scenario(w: &mut World, cfg: &HistCfg, monitors: &mut [Box<dyn Monitor>]) -> Hist {
         let mut desc = vec![];
         let dpf = *rnd::pick(&mut w.r, &[0u16, 1, 300, 2500, 1000]);
-        let c = w.add_config(dpf);
+        // one scenario in four first asks for a deployment whose default protocol fee rate is out of bounds; the program
+        // must refuse - if it does not, the history runs on that deployment, so that whatever follows from it shows
+        let hostile = if rnd::chance(&mut w.r, 1, 4) {
+            let bad = *rnd::pick(&mut w.r, &[2501u16, 9999, 10000, 10001, 30000, 65535]);
+            w.try_add_config(bad)
+        } else {
+            None
+        };
+        let c = match hostile {
+            Some(c) => c,
+            None => w.add_config(dpf),
+        };
         for _ in 0..3 {
             w.add_user();
         }
@@ -456,7 +467,28 @@ impl Hist {
         w.positions.iter().enumerate().filter(|(_, q)| q.pool == p && !q.closed).map(|(i, _)| i).collect()
     }
 
+    /// Initialise a tick array that already exists (either instruction, idempotent or not): an error or a no-op.
+    pub fn op_reinitialize_tick_array(&mut self, w: &mut World, p: usize, monitors: &mut [Box<dyn Monitor>], acc: &mut Acc) {
+        use solana_program::system_program;
+        let arrays: Vec<(i32, Pubkey)> = World::scan_tick_arrays(&w.bank, &w.pools[p].key).into_iter().map(|(s, (k, _))| (s, k)).collect();
+        if arrays.is_empty() {
+            return;
+        }
+        let (start, key) = *rnd::pick(&mut w.r, &arrays);
+        let pool = w.pools[p].key;
+        let ix = if rnd::chance(&mut w.r, 2, 3) {
+            b::InitializeDynamicTickArray { whirlpool: pool, funder: ADMIN, tick_array: key, system_program: system_program::ID }.ix(start, rnd::chance(&mut w.r, 3, 4))
+        } else {
+            b::InitializeTickArray { whirlpool: pool, funder: ADMIN, tick_array: key, system_program: system_program::ID }.ix(start)
+        };
+        acc.count("tick_array_reinitialisations_attempted");
+        self.step(w, ix, monitors, acc);
+    }
+
     pub fn op_liquidity(&mut self, w: &mut World, p: usize, monitors: &mut [Box<dyn Monitor>], acc: &mut Acc) {
+        if rnd::chance(&mut w.r, 1, 25) {
+            return self.op_reinitialize_tick_array(w, p, monitors, acc);
+        }
         let live = self.live_positions(w, p);
         if live.is_empty() || rnd::chance(&mut w.r, 1, 5) {
             self.op_open_and_fund(w, p, monitors, acc);
